@@ -20,6 +20,7 @@ mod c16;
 mod c17;
 mod c18;
 mod c19;
+mod c20;
 
 pub fn bytes_of(v: &Value) -> Vec<u8> {
     if let Some(s) = v.get("utf8").and_then(|x| x.as_str()) {
@@ -75,6 +76,7 @@ fn main() {
         "c19_accepted" => c19::accepted(&v),
         "c19_totals" => c19::totals(&v),
         "c19_numstat" => c19::numstat(&v),
+        "c20_checkpoint" => c20::checkpoint(&v),
         "c18_parse" => c18::parse(&v),
         "c18_alias_tokens" => c18::alias_tokens(&v),
         "c18_alias_resolve" => c18::alias_resolve(&v),
